@@ -145,13 +145,13 @@ theorem frame_step (op : Op) (s : Store) (g' : String) (h : Inv s) (hk : op.keep
     · exact withLink_pred (Frames g' s) s g a b kind _ (Frames.refl _ _)
         (fun ia ib _ ha _ => frames_updEdge g' s ia ib _ (Or.inl (findNode_not_in s h g g' a ia ha hne)))
   | deleteGraph g => exact frames_delGraphNl g g' s h hne
-  | addGraph g ig => exact frame_addGraph s h g g' ig hne
+  | addGraph g ig => exact frame_addGraph s h g g' ig.close hne
   | addGraphDirect g ig =>
     simp only [step, addGraphDirect]
     refine Frames.trans (frames_delIfPresent g g' s h hne) (frames_appendGraph g' _ (inv_delIfPresent s g h) _ _ ?_)
     intro a ha
     simp only [Op.keepsGraphId, List.all_eq_true, beq_iff_eq] at hk
-    rw [hk a ha]
+    rw [hk a (by simpa [IGraph.close] using ha)]
     intro e; injection e with e; injection e with e; exact hne e.symm
   | clone g g2 =>
     simp only [step, cloneGraph]
@@ -159,6 +159,7 @@ theorem frame_step (op : Op) (s : Store) (g' : String) (h : Inv s) (hk : op.keep
     · exact Frames.refl _ _
     · exact frame_addGraph s h g2 g' _ hne
   | mergeNodes g nid g2 pol => simp [Op.keepsGraphId] at hk
+  | delAllGraphs => simp [Op.keepsGraphId] at hk
   | getNodeProperties g nid =>
     simp only [step, getNodeProperties]
     refine withNode_pred (Frames g' s) s g nid _ (Frames.refl _ _) (fun i _ => ?_)
